@@ -3,6 +3,7 @@ package props
 import (
 	"fmt"
 	"go/token"
+	"go/types"
 	"strings"
 
 	"golang.org/x/tools/go/ssa"
@@ -167,8 +168,9 @@ func runC36(c *an.Ctx) {
 	extra := map[ssa.Value]an.Abs{}
 	idxName := ""
 	for _, p := range save.Params {
-		if p.Name() == "index" {
-			idxName = "index"
+		// the direction selector: savePeer's int parameter (whatever it is called)
+		if b, isB := p.Type().Underlying().(*types.Basic); isB && b.Kind() == types.Int {
+			idxName = p.Name()
 		}
 	}
 	for _, val := range findAll(func(v ssa.Value) bool {
